@@ -348,6 +348,29 @@ def run (qs : List Query) (minQueries : Nat) (evs : List Ty) : List (Nat × Nat 
     (a', acc.2 ++ reps.map fun (q, v) => (k, q, v))) (Agg.new qs minQueries, [])
   (r.2, flush r.1)
 
+/-- `reset` (end of `flush`): graph, `last_event_type`, `final_counts` cleared, every `QueryState`
+re-created (`current_state` = initial, `count` 0, `in_trend` false, `snapshot_value` 1); template,
+registrations and sharing decisions stay -/
+def reset (a : Agg) : Agg :=
+  { a with
+    states := a.regs.map fun r => (r.1, { cur := a.tpl.initialOf r.1 }),
+    finals := a.regs.map fun r => (r.1, 0),
+    lastTy := none, active := 0 }
+
+/-- one aggregator driven through several windows separated by `flush()`: incremental reports
+`(event index over the whole stream, query, value)`, flush reports `(window, query, value)` -/
+def runWindows (qs : List Query) (minQueries : Nat) (wins : List (List Ty)) :
+    List (Nat × Nat × Nat) × List (Nat × Nat × Nat) :=
+  let r := wins.zipIdx.foldl
+    (fun (acc : Agg × Nat × List (Nat × Nat × Nat) × List (Nat × Nat × Nat)) (evs, w) =>
+      let (a, off, inc, fl) := acc
+      let r := (evs.zipIdx off).foldl (fun (acc : Agg × List (Nat × Nat × Nat)) (ty, k) =>
+        let (a', reps) := process acc.1 ty
+        (a', acc.2 ++ reps.map fun (q, v) => (k, q, v))) (a, inc)
+      (reset r.1, off + evs.length, r.2, fl ++ (flush r.1).map fun (q, v) => (w, q, v)))
+    (Agg.new qs minQueries, 0, [], [])
+  (r.2.2.1, r.2.2.2)
+
 end Hamlet
 
 /-! ## Mirror of `greta.rs` -/
@@ -412,6 +435,19 @@ def run (qs : List Query) (evs : List Ty) (known : Ty → Bool) : List (Nat × N
     let (e', reps) := process acc.1 ty (known ty)
     (e', acc.2 ++ reps.map fun (q, v) => (k, q, v))) (Exec.new qs, [])
   (r.2, flush r.1)
+
+/-- several windows separated by `flush()` (which clears the graph and zeroes `final_counts`) -/
+def runWindows (qs : List Query) (wins : List (List Ty)) (known : Ty → Bool) :
+    List (Nat × Nat × Nat) × List (Nat × Nat × Nat) :=
+  let r := wins.zipIdx.foldl
+    (fun (acc : Nat × List (Nat × Nat × Nat) × List (Nat × Nat × Nat)) (evs, w) =>
+      let (off, inc, fl) := acc
+      let r := (evs.zipIdx off).foldl (fun (acc : Exec × List (Nat × Nat × Nat)) (ty, k) =>
+        let (e', reps) := process acc.1 ty (known ty)
+        (e', acc.2 ++ reps.map fun (q, v) => (k, q, v))) (Exec.new qs, inc)
+      (off + evs.length, r.2, fl ++ (flush r.1).map fun (q, v) => (w, q, v)))
+    (0, [], [])
+  (r.2.1, r.2.2)
 
 end GretaImpl
 
